@@ -242,7 +242,13 @@ func genMsg(r *Rng, s WorldSpec, ci, j int) []byte {
 	case "const":
 		if r.Bool(0.04) {
 			// an occasional long line among the short ones (same container, same group)
-			return longConstLines[r.Intn(len(longConstLines))]
+			l := longConstLines[r.Intn(len(longConstLines))]
+			if r.Bool(0.5) {
+				// the same line but for a few bytes in its middle
+				l = append([]byte(nil), l...)
+				l[len(l)/2] = byte('A' + r.Intn(3))
+			}
+			return l
 		}
 		return []byte(constLines[r.Intn(len(constLines))])
 	case "token":
